@@ -95,8 +95,12 @@ func runC02(c *fw.Ctx, idx int) fw.Result {
 		}
 		pr.MaxQueries = 120
 	}
+	if L > 3000 {
+		pr.MaxQueries = 3
+		res.Count("genome_scale_cases", 1)
+	}
 	sf := gen.MakeSam(r, ref, pr)
-	for tries := 0; idx%50 == 0 && tries < 5 && len(sf.Queries) < 40; tries++ {
+	for tries := 0; idx%50 == 0 && L <= 3000 && tries < 5 && len(sf.Queries) < 40; tries++ {
 		sf = gen.MakeSam(r, ref, pr)
 	}
 	if len(sf.Queries) >= 2 && r.Chance(0.15) {
